@@ -13,7 +13,9 @@ use std::sync::{Arc, Condvar, Mutex};
 
 enum Event {
     AtHook,
-    Done(u16),
+    // the returned plan is handed to the driver, which keeps it alive until the end of the trace
+    // (callers hold on to plans: an eviction policy must not depend on that)
+    Done(u16, std::sync::Arc<raptorq::SourceBlockEncodingPlan>),
 }
 
 struct Gate {
@@ -57,7 +59,7 @@ fn spawn_worker() -> Worker {
         SLOT.with(|s| *s.borrow_mut() = Some((g2, ev_tx.clone())));
         while let Ok(k) = cmd_rx.recv() {
             let plan = enc::get_or_generate_plan(k);
-            ev_tx.send(Event::Done(enc::plan_symbol_count(&plan))).unwrap();
+            ev_tx.send(Event::Done(enc::plan_symbol_count(&plan), plan)).unwrap();
         }
     });
     Worker { cmd: cmd_tx, events: ev_rx, gate, parked: false, generated: false }
@@ -79,6 +81,7 @@ pub fn trace(a: &[u64]) -> Vec<u64> {
     enc::set_between_sections_hook(Some(hook));
     enc::cache_clear();
     let mut workers: HashMap<u64, Worker> = HashMap::new();
+    let mut held = vec![];
     let mut out = vec![];
     for step in a.chunks(3) {
         let (t, kind, k) = (step[0], step[1], step[2]);
@@ -89,7 +92,8 @@ pub fn trace(a: &[u64]) -> Vec<u64> {
                 w.cmd.send(k as u16).unwrap();
                 match w.events.recv().unwrap() {
                     Event::AtHook => w.parked = true,
-                    Event::Done(c) => {
+                    Event::Done(c, plan) => {
+                        held.push(plan);
                         row[0] = 1;
                         row[1] = c as u64;
                     }
@@ -103,7 +107,8 @@ pub fn trace(a: &[u64]) -> Vec<u64> {
                     w.gate.cv.notify_all();
                 }
                 match w.events.recv().unwrap() {
-                    Event::Done(c) => {
+                    Event::Done(c, plan) => {
+                        held.push(plan);
                         row[0] = 1;
                         row[1] = c as u64;
                         w.parked = false;
@@ -129,5 +134,6 @@ pub fn trace(a: &[u64]) -> Vec<u64> {
     }
     enc::set_between_sections_hook(None);
     enc::cache_clear();
+    drop(held);
     out
 }
